@@ -72,6 +72,7 @@ let dispatch (fn : string) : jv -> jv = match fn with
   | "send_to_kdc" -> send_to_kdc_j
   | "verify_apreq" -> verify_apreq_j
   | "spnego_serve" -> serve_j
+  | "http_do" -> http_do_j
   | "spnego_accept" -> accept_sec_context_j
   | "send_to_kdc_visible" -> send_to_kdc_visible_j
   | _ -> failwith ("unknown model function " ^ fn)
